@@ -6,7 +6,10 @@ from .. import values as V
 from . import pool
 from . import common
 
-RULE = ("(a) directed: every pair (derivation, write form, side written) over 38 derivations (copy, slice, mask, T, multi-column select, >> vector / "
+from . import recompute
+
+RULE = ("[plus the shared recompute-after-history monitor: this property's operations evaluated on long-lived objects between in-place writes / renames must equal the same operations on fresh objects rebuilt from the current contents] "
+	"(a) directed: every pair (derivation, write form, side written) over 38 derivations (copy, slice, mask, T, multi-column select, >> vector / "
 	"dict / table, <<, Table([..]), Vector([..]), joins, sort, aggregate, window, table arithmetic, transposes, peek, to_object, cast, fillna, dropna, unique, attribute-assigned donor, row slice, row mask ...) x 14 write forms "
 	"(vector int / slice / mask / index-list keys with scalar and sequence values, through a free vector or a live column view; table cell, row, "
 	"column, region; attribute assignment with list and vector; rename through view; rename_column) is executed and every object other than "
@@ -19,7 +22,7 @@ ASSUMPTIONS = [
 ]
 EXHAUSTIVE = {"flag": True, "scope": "all (derivation x write form x side) pairs of the directed matrix; histories are sampled"}
 ANCHOR_FUNCS = ["table:Table.__init__", "vector:Vector.copy", "vector:Vector.__setitem__", "table:Table.__setattr__", "table:Table.__setitem__", "table:Table.__rshift__"]
-REQUIRED_STRATA = {"pair": 300, "steps": 3000}
+REQUIRED_STRATA = {"recompute": 200, "pair": 300, "steps": 3000}
 
 
 def base_table(rng, n=3):
@@ -354,14 +357,14 @@ def run_history(chk, spec):
 		chk.counters["history_steps"] += len(m.trace)
 
 
-RUNNERS = {"pair": run_pair, "history": run_history}
-
+RUNNERS = {"pair": run_pair, "history": run_history, "recompute": recompute.runner("C01")}
 
 def setup(chk):
 	pool.CENSUS.install()
 
 
 def run(chk):
+	recompute.add_cases(chk, "C01")
 	rng = chk.rng
 	idx = 0
 	for dname in DERIVS:
